@@ -529,7 +529,8 @@ func c17IdentityUnchanged(r *an.Run) {
 			if !ok || an.StaticCallee(c) == nil || an.StaticCallee(c).Name() != "Len" || len(c.Call.Args) == 0 {
 				return false
 			}
-			return c.Call.Args[0] == ssa.Value(paramAt(f, pi))
+			p := paramAt(f, pi)
+			return p != nil && (c.Call.Args[0] == ssa.Value(p) || isParam(c.Call.Args[0], p.Name()))
 		}
 		r.Check(len(a) >= 2 && isLenOfParam(a[0], 0) && isLenOfParam(a[1], 1), short(f)+"|script-covers-both-lists", diffCall.Pos(), "the edit script is computed over from.Len() x to.Len(): every element of both lists gets its step (found %s x %s)", an.Describe(a[0]), an.Describe(a[1]))
 	}
